@@ -1,57 +1,113 @@
 #!/usr/bin/env python3
-"""Copy evaluated seeded changes (tools/evalmut.py results under /tmp/mut/eval_results) into
-/verif/seeded/<id>-m<k>/ : patch.diff, the demonstration, and meta.json (which property it breaks,
-what it needs in order to manifest, what was run and with which outcome). Only changes whose
-demonstration was confirmed (fails with the change, passes without, existing tests still pass)
-are kept."""
-import json, os, shutil, sys, glob
+"""Copy evaluated seeded changes into /verif/seeded/<id>-w<wave>m<k>/ : patch.diff, the demonstration
+and meta.json (which property the change breaks, what it needs in order to manifest, what was run
+and with which outcome, and the history of earlier evaluations of the same change).
+
+Input: the result files that tools/evalmut.py wrote under /tmp/mut/eval_results:
+  final-<sub>-<id>-m<k>.json   the evaluation against the checks as committed (sub = out|out2|out2r|out3)
+  <id>-m<k>.json, w2-<id>-m<k>.json, re-<sub>-<id>-m<k>.json   earlier evaluations (history only)
+Only changes whose demonstration was confirmed (fails with the change, passes without, existing
+tests of the touched packages still pass) are kept; the others are listed in seeded/REJECTED.json.
+Also writes seeded/SUMMARY.json, from which DESIGN.md section 7 is written."""
+import glob, json, os, re, shutil
+
 V = os.path.dirname(os.path.dirname(os.path.abspath(__file__)))
+RES = "/tmp/mut/eval_results"
 out_root = os.path.join(V, "seeded")
-kept = []
-for rp in sorted(glob.glob("/tmp/mut/eval_results/C*-m*.json")):
+WAVE = {"out": 1, "out2": 2, "out2r": 2, "out3": 3}
+
+
+def load(p):
     try:
-        r = json.load(open(rp))
+        return json.load(open(p))
+    except Exception:
+        return None
+
+
+def agent_meta(src):
+    mp = os.path.join(src, "meta.json")
+    if not os.path.exists(mp):
+        return {}
+    try:
+        return json.load(open(mp))
     except ValueError:
-        print("unparsable", rp); continue
+        t = open(mp).read()
+        out = {}
+        for k in ("summary", "needs"):
+            m = re.search(r'"%s"\s*:\s*"(.*?)",?\s*\n' % k, t, re.S)
+            if m:
+                out[k] = m.group(1)
+        return out
+
+
+def brief(r):
+    if not r:
+        return None
+    return {"caught": bool(r.get("caught")), "checks": {p: {"exit": c.get("exit"), "lines": [l[:300] for l in c.get("lines", [])[:3]]} for p, c in r.get("checks", {}).items()}}
+
+
+summary, rejected = [], []
+for rp in sorted(glob.glob(os.path.join(RES, "final-*.json"))):
+    m = re.match(r"final-(out\w*)-(C\d+)-m(\d)\.json$", os.path.basename(rp))
+    if not m:
+        continue
+    sub, pid, k = m.group(1), m.group(2), m.group(3)
+    name = "%s-w%dm%s%s" % (pid, WAVE[sub], k, "r" if sub == "out2r" else "")
+    r = load(rp)
+    if r is None:
+        rejected.append({"name": name, "why": "result file unparsable"})
+        continue
     st = r.get("steps", {})
-    name = os.path.basename(rp)[:-5]
-    if not (st.get("applies") and st.get("demo_passes_on_head") and st.get("demo_fails_with_change") and st.get("existing_tests_pass_with_change")):
-        print("not confirmed:", name, st); continue
+    if not st.get("applies"):
+        rejected.append({"name": name, "why": "patch does not apply to the current HEAD of /repo (a later fix: commit rewrote the same lines)" + ("; a rebased copy is kept as %sr" % name if os.path.exists(os.path.join(RES, "final-out2r-%s-m%s.json" % (pid, k))) and sub == "out2" else "")})
+        continue
+    if not (st.get("demo_passes_on_head") and st.get("demo_fails_with_change") and st.get("existing_tests_pass_with_change")):
+        rejected.append({"name": name, "why": "not confirmed", "steps": st})
+        continue
     src = r["dir"]
     dst = os.path.join(out_root, name)
-    os.makedirs(dst, exist_ok=True)
+    shutil.rmtree(dst, ignore_errors=True)
+    os.makedirs(dst)
     for f in os.listdir(src):
         if f.endswith(".diff") or f.endswith(".go"):
             shutil.copy(os.path.join(src, f), os.path.join(dst, f))
-    agent = {}
-    try:
-        agent = json.load(open(os.path.join(src, "meta.json")))
-    except Exception:
-        pass
-    prev = {}
-    if os.path.exists(os.path.join(dst, "meta.json")):
-        try:
-            prev = json.load(open(os.path.join(dst, "meta.json")))
-        except ValueError:
-            prev = {}
+    agent = agent_meta(src)
+    hist = []
+    early = {"out": ["%s-m%s.json" % (pid, k)], "out2": ["w2-%s-m%s.json" % (pid, k)], "out2r": [], "out3": ["w3-%s-m%s.json" % (pid, k)]}[sub]
+    for label, fn in [("first evaluation, against the checks as they were when the change was produced", f) for f in early] + \
+                     [("re-evaluation after the checks were strengthened", "re-%s-%s-m%s.json" % (sub, pid, k))]:
+        b = brief(load(os.path.join(RES, fn)))
+        if b:
+            hist.append(dict(when=label, **b))
     meta = {
-        "property": r["property"],
-        "summary": agent.get("summary", prev.get("summary", "")),
-        "needs": agent.get("needs", prev.get("needs", "")),
+        "property": pid,
+        "wave": WAVE[sub],
+        "summary": agent.get("summary", ""),
+        "needs": agent.get("needs", ""),
         "files": r.get("touched", []),
-        "author_ran": agent.get("ran", prev.get("author_ran", [])),
+        "author_ran": agent.get("ran", []),
         "confirmed_in_scratch_worktree": {
             "patch_applies_to_HEAD": True,
             "demonstration_passes_on_HEAD": True,
             "demonstration_fails_with_change": True,
             "existing_tests_of_touched_packages_pass_with_change": r.get("existing_tests", {}),
-            "how": "tools/evalmut.py in a scratch worktree of /repo (git worktree add /tmp/mut/eval HEAD; git apply patch.diff; go test with the quic-stub modfile; git checkout -- .)",
+            "how": "tools/evalmut.py in a scratch worktree of /repo (git worktree add <dir> HEAD; git apply patch.diff; go test with the quic-stub modfile; "
+                   "bin/check <id> --tier quick with VERIF_REPO=<dir>; git checkout -- .); /repo itself was never touched",
         },
         "checks_run_against_the_change": r.get("checks", {}),
         "caught_by_quick_check": bool(r.get("caught")),
-        "history": prev.get("history", []),
+        "history": hist,
     }
+    if sub == "out2r":
+        meta["note"] = "the author's patch was written against the tree before fix f91fa6e; this is the same change re-applied by hand to the current code"
     json.dump(meta, open(os.path.join(dst, "meta.json"), "w"), indent=1)
-    kept.append((name, meta["caught_by_quick_check"]))
-for n, c in kept:
-    print(n, "caught" if c else "MISSED")
+    keys = sorted({re.search(r"key=(\S+)", l).group(1) for c in r.get("checks", {}).values() for l in c.get("lines", []) if l.startswith("VIOLATION") and re.search(r"key=(\S+)", l)})
+    first = hist[0]["caught"] if hist else None
+    summary.append({"name": name, "property": pid, "wave": WAVE[sub], "summary": meta["summary"][:300], "caught": meta["caught_by_quick_check"], "keys": keys[:4],
+                    "caught_at_first_evaluation": first})
+json.dump(summary, open(os.path.join(out_root, "SUMMARY.json"), "w"), indent=1)
+json.dump(rejected, open(os.path.join(out_root, "REJECTED.json"), "w"), indent=1)
+for s in summary:
+    print(s["name"], "caught" if s["caught"] else "MISSED", "(first: %s)" % s["caught_at_first_evaluation"], ",".join(s["keys"])[:120])
+for r in rejected:
+    print("rejected:", r["name"], r["why"][:100])
